@@ -1,5 +1,6 @@
 // vh: the Go side of the verification harness. `vh drive <ID>` records traces from the real
-// code (C->S); `vh replay <ID>` replays TLC-generated vectors against it (S->C).
+// code (C->S); `vh replay <ID>` replays TLC-generated vectors against it (S->C). Each property
+// registers its sub-commands from its own file reg_<id>.go in this directory.
 package main
 
 import (
@@ -7,43 +8,55 @@ import (
 	"fmt"
 	"os"
 
-	"verifharness/internal/c06"
 	"verifharness/internal/ev"
 )
 
+// Args are the common flags every sub-command gets.
+type Args struct {
+	In, Out, Tier, Part string
+	Seed                int64
+	Shard, Shards       int
+	Rest                []string
+}
+
+var commands = map[string]func(a Args, w *ev.Writer) error{}
+
+func register(modeID string, f func(a Args, w *ev.Writer) error) { commands[modeID] = f }
+
 func main() {
 	if len(os.Args) < 3 {
-		fmt.Fprintln(os.Stderr, "usage: vh drive|replay <ID> [flags]")
+		fmt.Fprintln(os.Stderr, "usage: vh drive|replay|<mode> <ID> [flags]")
 		os.Exit(2)
 	}
 	mode, id := os.Args[1], os.Args[2]
 	fs := flag.NewFlagSet("vh", flag.ExitOnError)
-	out := fs.String("out", "", "output NDJSON file")
-	in := fs.String("in", "", "input NDJSON file (vectors)")
-	tier := fs.String("tier", "quick", "quick|thorough")
-	seed := fs.Int64("seed", 1, "seed")
-	shard := fs.Int("shard", 0, "shard index")
-	shards := fs.Int("shards", 1, "number of shards")
-	part := fs.String("part", "", "sub-driver selector")
+	var a Args
+	fs.StringVar(&a.Out, "out", "", "output NDJSON file")
+	fs.StringVar(&a.In, "in", "", "input NDJSON file (vectors)")
+	fs.StringVar(&a.Tier, "tier", "quick", "quick|thorough")
+	fs.Int64Var(&a.Seed, "seed", 1, "seed")
+	fs.IntVar(&a.Shard, "shard", 0, "shard index")
+	fs.IntVar(&a.Shards, "shards", 1, "number of shards")
+	fs.StringVar(&a.Part, "part", "", "sub-driver selector")
 	fs.Parse(os.Args[3:])
-	_ = part
-	w, err := ev.Create(*out)
+	a.Rest = fs.Args()
+	f, ok := commands[mode+":"+id]
+	if !ok {
+		fmt.Fprintf(os.Stderr, "vh: unknown %s %s\n", mode, id)
+		os.Exit(2)
+	}
+	w, err := ev.Create(a.Out)
 	if err != nil {
 		fmt.Fprintln(os.Stderr, err)
 		os.Exit(2)
 	}
-	defer w.Close()
-	switch mode + ":" + id {
-	case "drive:C06":
-		c06.Drive(w, c06.Opts{Tier: *tier, Seed: *seed, Shard: *shard, Shards: *shards})
-	case "replay:C06":
-		if err := c06.Replay(*in, w); err != nil {
-			fmt.Fprintln(os.Stderr, err)
-			w.Close()
-			os.Exit(2)
-		}
-	default:
-		fmt.Fprintf(os.Stderr, "vh: unknown %s %s\n", mode, id)
+	if err := f(a, w); err != nil {
+		w.Close()
+		fmt.Fprintln(os.Stderr, "vh:", err)
+		os.Exit(2)
+	}
+	if err := w.Close(); err != nil {
+		fmt.Fprintln(os.Stderr, err)
 		os.Exit(2)
 	}
 }
